@@ -372,6 +372,179 @@ class MoreLayer(Spec):
 
 
 # ---------------------------------------------------------------------------------------------
+class SizeLayer(Spec):
+    """RepartitionSize._layer (repartition(partition_size=...)).  When some input partition is too large, input
+    partition i becomes the nsplits[i] consecutive intermediate partitions S(i) .. S(i+1)-1 (passed through when
+    nsplits[i] == 1, split evenly otherwise; S = prefix sums of nsplits); otherwise the intermediates ARE the input
+    partitions.  Output i concatenates intermediates b[i] .. b[i+1]-1 in order, b = self._partition_boundaries.
+    Every output is defined, every referenced key is defined in this layer or is an input partition in range."""
+
+    file, qualname, props = "dask_expr/_repartition.py", "RepartitionSize._layer", ["C09", "C13", "C06"]
+    lemmas = ["PrefixSums"]
+    assumptions = [
+        "callee contract assumed: RepartitionSize._nsplits - one positive entry per input partition (1 + mem_usage // size on non-negative usages; numpy, outside tier P; checked at run time by the concrete cross-check and C13 tier R)",
+        "callee contract assumed: RepartitionSize._partition_boundaries - starts at 0, non-decreasing, ends at the number of intermediate partitions (sum of nsplits when something is split, frame.npartitions otherwise); pandas/numpy/iter_chunks, outside tier P; checked at run time by the concrete cross-check",
+        "numpy semantics assumed: np.any(self._nsplits > 1) is true iff some entry exceeds 1 (only used to choose the branch; both branches are verified)",
+        "L4-prefix-sums (lemma, proved in lemmas/PrefixSums.lean)",
+    ]
+
+    def make_inputs(self, ex, sym, fr):
+        n_in = sym.int("n_in")
+        ns = sym.seq("ns", kind="list")
+        b = sym.seq("b", kind="list", min_len=2)
+        anys = z3.Bool("any_split")
+        S = fresh_fun("S", z3.IntSort(), z3.IntSort())
+        w = fresh_fun("w", z3.IntSort(), z3.IntSort())
+        i, m, a, b_ = z3.Ints("ax_i ax_m ax_a ax_b")
+        sym.pc += [S(0) == 0, z3.ForAll([i], z3.Implies(z3.And(i >= 0, i < n_in), S(i + 1) == S(i) + ns.get(i)))]
+        self._lemma = [
+            z3.ForAll([a, b_], z3.Implies(z3.And(0 <= a, a <= b_, b_ <= n_in), S(a) <= S(b_))),
+            z3.ForAll([m], z3.Implies(z3.And(0 <= m, m < S(n_in)), z3.And(0 <= w(m), w(m) < n_in, S(w(m)) <= m, m < S(w(m) + 1)))),
+        ]
+        frame = _dep("self.frame", n_in)
+        s = Obj("self", {"frame": frame, "_name": NameStr("", "self"), "_nsplits": ns, "_partition_boundaries": b, "_size": Opaque("size")}, cls=("RepartitionSize", "Repartition", "Expr"))
+        self._anys = anys
+        return {"self": s, "n_in": n_in, "ns": ns, "b": b, "anys": anys, "_split_name": NameStr("split-", "tok2"), "_mid_name": NameStr("repartition-split-", "size+tok1"), "_S": lambda k, S=S: S(zint(k)), "_w": lambda m, w=w: w(zint(m)), "_lemma": self._lemma}
+
+    # numpy / tokenize vocabulary of the function
+    def compare(self, ex, fr, op, a, b):
+        return Opaque("nsplits>1")  # elementwise comparison of the nsplits array; only np.any consumes it
+
+    def call(self, ex, fr, name, args, kwargs):
+        if name == "np.any":
+            return self._anys
+        if name == "tokenize":
+            return NameStr("", "tok%d" % len(args))
+        return NotImplemented
+
+    def fstring(self, ex, fr, parts):
+        if parts and parts[0] == "repartition-split-":
+            return NameStr("repartition-split-", "size+tok1")
+        return NotImplemented
+
+    def requires(self):
+        total = lambda c, e: c.ite(e["anys"], e["_S"](e["n_in"]), e["n_in"])
+        return {
+            "n_in>=1": lambda c, e: e["n_in"] >= 1,
+            "nsplits-length": lambda c, e: c.eq(c.len(e["ns"]), e["n_in"]),
+            "nsplits-positive": lambda c, e: c.forall(0, e["n_in"], lambda k: c.at(e["ns"], k) >= 1),
+            "boundaries-start-at-0": lambda c, e: c.And(c.len(e["b"]) >= 2, c.eq(c.at(e["b"], 0), 0)),
+            "boundaries-monotone": lambda c, e: c.forall(0, c.len(e["b"]), lambda i: c.forall(i, c.len(e["b"]), lambda j: c.at(e["b"], i) <= c.at(e["b"], j))),
+            "boundaries-end-at-total": lambda c, e: c.eq(c.at(e["b"], c.len(e["b"]) - 1), total(c, e)),
+            "L4": lambda c, e: c.And(*e["_lemma"]) if c.symbolic else True,
+        }
+
+    invariants = {
+        0: lambda c, e: c.eq(e["j"], e["_S"](e["_i"])),
+        1: lambda c, e: c.eq(e["j"], e["_S"](e["_outer"][0]) + e["_i"]),
+    }
+
+    def ensures(self):
+        def names(c, e):
+            own = c.attr(e["self"], "_name")
+            fname = c.attr(e["self"], "frame._name")
+            return own, fname, e["_split_name"], e["_mid_name"]
+
+        def is_(c, a, b):
+            return (c.eq(a, b) is True) if c.symbolic else a == b
+
+        def k1(c, e, r):
+            own = names(c, e)[0]
+            return c.forall(0, c.len(e["b"]) - 1, lambda i: c.holds_at(
+                r, (own, i),
+                lambda v: len(v) == 2 and c.And(
+                    c.eq(v[0], c.fn("methods.concat")),
+                    c.eq(c.len(v[1]), c.at(e["b"], i + 1) - c.at(e["b"], i)),
+                    c.forall(0, c.at(e["b"], i + 1) - c.at(e["b"], i), lambda j: c.eq(c.at(v[1], j), (c.ite(e["anys"], e["_mid_name"], names(c, e)[1]), c.at(e["b"], i) + j))),
+                ),
+            ))
+
+        def mids(c, e, r):
+            # every intermediate partition that an output concatenates is defined (split scenario)
+            own, fname, split, mid = names(c, e)
+            W = e.get("_w")
+            return c.Implies(e["anys"], c.forall(0, e["_S"](e["n_in"]), lambda m: c.defined(r, (mid, m), witness=[W(m), m - e["_S"](W(m))] if W else None)))
+
+        def dataflow(c, e, r):
+            own, fname, split, mid = names(c, e)
+            S, ns = e["_S"], e["ns"]
+
+            def one(k, v):
+                if is_(c, k[0], own):
+                    return True
+                if is_(c, k[0], split):
+                    return c.And(len(v) == 3, c.eq(v[0], c.fn("split_evenly")), c.eq(v[1], (fname, k[1])), k[1] >= 0, k[1] < e["n_in"], c.eq(v[2], c.at(ns, k[1])), c.at(ns, k[1]) != 1)
+                if len(v) == 2:
+                    return c.And(is_(c, k[0], mid), c.eq(v[0], fname), v[1] >= 0, v[1] < e["n_in"], c.eq(c.at(ns, v[1]), 1), c.eq(k[1], S(v[1])))
+                i = v[1][1]
+                return c.And(is_(c, k[0], mid), len(v) == 3, c.eq(v[0], c.fn("getitem")), c.eq(v[1][0], split), i >= 0, i < e["n_in"], c.at(ns, i) != 1, v[2] >= 0, v[2] < c.at(ns, i), c.eq(k[1], S(i) + v[2]))
+
+            return c.forall_entries(r, one)
+
+        def k2(c, e, r):
+            own, fname, split, mid = names(c, e)
+            return c.forall_entries(r, lambda k, v: c.defined(r, v[1]) if (len(v) == 3 and is_(c, k[0], mid)) else True)
+
+        def deps_in_range(c, e, r):
+            # no split: the concatenated keys are input partitions in range
+            return c.Implies(c.Not(e["anys"]), c.eq(c.at(e["b"], c.len(e["b"]) - 1), e["n_in"]))
+
+        return {"K1-outputs-concat-range": k1, "K1-intermediates-defined": mids, "dataflow-split-in-order": dataflow, "K2-split-keys-defined": k2, "K2-unsplit-deps-in-range": deps_in_range}
+
+    def concrete_globals(self):
+        import dask_expr._repartition as m
+
+        return vars(m)
+
+    def concrete_inputs(self):
+        for sizes in ((1, 1, 1), (5, 1, 1), (1, 5, 1), (1, 1, 5), (3, 1, 7, 1), (1, 2, 1, 2, 1), (4,), (2, 9, 2, 2, 9)):
+            for size in (2, 3, 16):
+                yield {"sizes": sizes, "size": size}
+
+    def concrete_env(self, inputs):
+        return None
+
+    def run_concrete(self, inputs):
+        import dask
+        import numpy as np
+        import pandas as pd
+        from dask.base import tokenize
+
+        import dask_expr as dx
+        from dask_expr._repartition import RepartitionSize
+
+        from vf.pyvc.ctx import ConcCtx
+
+        unit = 1000
+        rows = inputs["sizes"]
+        pdf = pd.DataFrame({"x": np.arange(sum(rows) * unit, dtype="int64")})
+        cut = [0] + [int(v) * unit for v in np.cumsum(rows)]
+        df = dx.from_delayed([dask.delayed(pdf.iloc[lo:hi]) for lo, hi in zip(cut, cut[1:])], meta=pdf.iloc[:0])
+        plan = df.repartition(partition_size=inputs["size"] * unit * 8).expr.lower_completely()
+        obj = [x for x in plan.walk() if isinstance(x, RepartitionSize)][0]
+        ns = [int(v) for v in obj._nsplits]
+        env = {
+            "self": obj, "n_in": obj.frame.npartitions, "ns": ns, "b": [int(v) for v in obj._partition_boundaries], "anys": any(v > 1 for v in ns),
+            "_S": lambda k, ns=ns: sum(ns[:k]), "_lemma": [],
+            "_split_name": f"split-{tokenize(obj.frame, obj._nsplits)}", "_mid_name": f"repartition-split-{obj._size}-{tokenize(obj.frame)}",
+        }
+        # the ASSUMED callee contracts (_nsplits, _partition_boundaries) are checked on the real object here
+        cx = ConcCtx(self.concrete_globals())
+        for label, clause in self.requires().items():
+            if not clause(cx, env):
+                raise AssertionError(f"assumed callee contract {label!r} is false on the real object: nsplits={ns} boundaries={env['b']}")
+        return env, obj._layer()
+
+    def inputs_from_model(self, model, sz, sym):
+        # a real frame whose partition i needs exactly ns[i] pieces at partition_size = 2 units (the boundaries are
+        # then whatever the real _partition_boundaries computes, not the model's)
+        ns = sym.read_seq(model, "ns")
+        if not ns or any(k < 1 or k > 40 for k in ns) or len(ns) > 40:
+            return None
+        return {"sizes": tuple(max(1, 2 * (k - 1)) for k in ns), "size": 2}
+
+
+# ---------------------------------------------------------------------------------------------
 class SimpleShuffleLayer(Spec):
     """SimpleShuffle._layer (single-stage task shuffle): every input partition i is grouped once by the
     partitioning index into npartitions_out pieces; output g concatenates piece P[g] of every input partition,
@@ -843,4 +1016,4 @@ def _scenarios():
     return out
 
 
-SPECS = [CumulativeFinalizeLayer(), FromGraphLayer(), MoreNSplits(), MoreDivisions(), MoreLayer(), SimpleShuffleLayer(), TaskShuffleTail(), BroadcastDep(), BlockwiseArg()] + _scenarios()
+SPECS = [CumulativeFinalizeLayer(), FromGraphLayer(), MoreNSplits(), MoreDivisions(), MoreLayer(), SizeLayer(), SimpleShuffleLayer(), TaskShuffleTail(), BroadcastDep(), BlockwiseArg()] + _scenarios()
